@@ -2,7 +2,7 @@
 
 L, RR, RUN = 'runner_layers', 'runner_result', 'runner_run'
 TR = 'runner.TestResult.'
-LAYER_FNS = [(L, 'runner.gather_layers'), (L, 'runner.order_by_bases'), (L, 'runner.setup_layer'),
+LAYER_FNS = [(L, 'runner.gather_layers'), (L, 'runner.order_by_bases'), (L, 'runner.order_by_bases@complete'), (L, 'runner.setup_layer'),
              (L, 'runner.tear_down_unneeded'), (L, 'runner.run_layer')]
 EVENTS = [(RR, TR + m) for m in ('addError', 'addFailure', 'addUnexpectedSuccess', 'addSubTest', 'addSuccess',
                                  'addExpectedFailure', 'addSkip')]
@@ -17,7 +17,7 @@ FUNCTIONS = {
     'C02': [(L, 'runner.handle_layer_failure'), (L, 'runner.tear_down_unneeded'), (L, 'runner.run_layer'),
             RUN_TESTS, RUNNER_LOOP, ('runner_spawn', 'runner.spawn_layer_in_subprocess'),
             # import errors are bad outcomes too: they reach the verdict through tests_from_suite / find_tests
-            ('find_c09', 'find.tests_from_suite'), ('select_c03', 'find.find_tests'), ('find_c02', 'find.Find.global_setup')],
+            ('find_c09', 'find.tests_from_suite'), ('select_c03', 'find.find_tests'), ('select_c03', 'find.find_tests@order'), ('find_c02', 'find.Find.global_setup')],
     'C07': [('runner_spawn', 'runner.spawn_layer_in_subprocess'), ('process_c07', 'process.SubProcess.report'),
             ('formatter_c13', 'process.SubProcess.global_setup')],
     'C04': [(L, 'runner.setup_layer'), (L, 'runner.tear_down_unneeded'), (L, 'runner.run_layer'),
@@ -26,10 +26,10 @@ FUNCTIONS = {
            # the run loop's other callees must not raise either: the scheduler of resumed layers, and the chain walk of
            # the runner's own traceback printer (reached from handle_layer_failure through traceback.print_exc)
            + [('runner_sched', 'runner.resume_tests'), ('tbformat_c04', 'tb_format._iter_chain')],
-    'C05': [(L, 'runner.gather_layers'), (L, 'runner.order_by_bases'), (RR, TR + '__init__'), (RR, TR + 'testSetUp'),
+    'C05': [(L, 'runner.gather_layers'), (L, 'runner.order_by_bases'), (L, 'runner.order_by_bases@complete'), (RR, TR + '__init__'), (RR, TR + 'testSetUp'),
             (RR, TR + 'testTearDown'), (RR, TR + 'startTest'), (RR, TR + 'stopTest'), (RR, TR + 'addSkip'), PROTOCOL],
     'C08': [('filter_c08', 'filter.build_filtering_func'), ('find_c14', 'find.find_suites'),
-            ('select_c03', 'filter.Filter.global_setup'), ('select_c03', 'find.find_tests'),
+            ('select_c03', 'filter.Filter.global_setup'), ('select_c03', 'find.find_tests'), ('select_c03', 'find.find_tests@order'),
             ('options_c08', 'options.get_options@filters')],
     'C12': [(RR, TR + 'startTest'), (RR, TR + 'addSkip'), PROTOCOL, RUN_TESTS, RUNNER_LOOP,
             ('process_c07', 'process.SubProcess.report'), ('report_c12', 'statistics.Statistics.report'),
@@ -59,9 +59,9 @@ FUNCTIONS = {
     'C15': [('find_c15', 'find.remove_stale_bytecode'), ('find_c15', 'options.get_options')],
     'C20': [('digraph_c20', 'digraph.DiGraph.sccs'), ('digraph_c20', 'digraph.DiGraph.sccs@partition'),
             ('digraph_c20', 'digraph.DiGraph.neighbors')],
-    'C03': [('find_c09', 'find.tests_from_suite'), ('select_c03', 'find.find_tests'),
+    'C03': [('find_c09', 'find.tests_from_suite'), ('select_c03', 'find.find_tests'), ('select_c03', 'find.find_tests@order'),
             ('select_c03', 'filter.Filter.global_setup'), ('select_c03', 'listing.Listing.global_setup'),
-            ('select_c03', 'listing.Listing.report'), ('runner_order', 'runner.order_by_bases'),
+            ('select_c03', 'listing.Listing.report'), ('runner_order', 'runner.order_by_bases'), ('runner_order', 'runner.order_by_bases@complete'),
             ('runner_order', 'runner.Runner.ordered_layers'), RUN_TESTS, RUNNER_LOOP,
             ('runner_spawn', 'runner.spawn_layer_in_subprocess'), ('features_c18', 'runner.Runner.run'),
             ('find_c14', 'find.find_test_files'), ('runner_sched', 'runner.resume_tests'),
@@ -71,7 +71,7 @@ FUNCTIONS = {
     'C14': [('find_c14', f) for f in ('find.strip_py_ext', 'find.contains_init_py', 'find.find_test_files_',
                                       'find.find_test_files', 'find.find_suites', 'find.test_dirs',
                                       'options.get_options@prefix')],
-    'C10': [('runner_order', f) for f in ('runner.gather_layers', 'runner.order_by_bases', 'runner.order_by_bases@unitfirst',
+    'C10': [('runner_order', f) for f in ('runner.gather_layers', 'runner.order_by_bases', 'runner.order_by_bases@unitfirst', 'runner.order_by_bases@complete',
                                           'runner.layer_sort_key', 'runner.layer_sort_key._gather',
                                           'runner.Runner.ordered_layers')]
            + [('runner_sched', 'runner.resume_tests')],       # resumed layers are started in the order they are handed over
